@@ -100,7 +100,7 @@ VERDICT = {
     'C08': 'DECIDED modulo std models',
     'C09': 'PARTIAL, function level: path rewriter + whole AST walker, import hook',
     'C10': 'PARTIAL: symbol-table layer, function/nested scopes',
-    'C11': 'PARTIAL: position stepping, literal decoding (+ token recognisers where enabled)',
+    'C11': 'PARTIAL: position stepping, literal decoding, every token recogniser, token(), tokenize()',
     'C12': 'PARTIAL, narrow: event sequence handed to xml-rs',
     'C13': 'DECIDED at collector + hook + verdict + directory walk',
     'C14': 'DECIDED at hook level',
